@@ -25,7 +25,10 @@ from common import Proc, log
 sys.path.insert(0, os.path.join(common.ROOT, "drivers"))
 
 SRC = 'nop\n.test "t" {\nldx #0\nloop:\ninx\njmp loop\n}\n'
-STATES = ["none", "idle", "running", "paused", "dead", "dead_poisoned", "dead_port"]
+STATES = ["none", "idle", "running", "paused", "dead", "dead_poisoned", "dead_port", "launch_in_flight"]
+# a big edit keeps the language server busy (holding its context lock) for a few seconds: a DAP `launch` sent meanwhile has to wait
+FILLER_LINES = 6000
+BIG_SRC = SRC + "".join(".const filler_%d = %d + 1\n" % (i, i) for i in range(FILLER_LINES))
 LIVE_STATES = STATES[:4]
 QUICK_ORDERS = [["shutdown", "exit"], ["close"], ["disconnect", "shutdown", "exit"], ["shutdown", "disconnect", "exit"]]
 MORE_ORDERS = [["exit"], ["shutdown", "close"], ["shutdown", "exit", "disconnect"], ["close", "disconnect"], ["disconnect", "close"],
@@ -35,12 +38,16 @@ MORE_ORDERS = [["exit"], ["shutdown", "close"], ["shutdown", "exit", "disconnect
 SLOW_ORDERS = [["shutdown"]]                      # lsp-server waits 30 s for `exit`, then start() fails: exit status 1
 NORMAL_BOUND = 30.0                               # normal time to exit is 0.02 - 0.1 s
 SLOW_BOUND = 30.0 + 45.0
+IN_FLIGHT_BOUND = 200.0                           # with a launch in flight the session first finishes the launch (it assembles the big
+                                                  # program again, ~2 s) before it sees the shutdown: normal time to exit is ~2 s
 
 
 UNREACHABLE = set()      # dead-thread session states that can no longer be produced through the protocol (handlers repaired)
 
 
 def model_state(state):
+    if state == "launch_in_flight":
+        return {"dead": "launch_in_flight", "attached": True, "machine": "none"}
     if state in ("dead", "dead_poisoned", "dead_port"):
         return {"dead": "dead_poisoned" if state == "dead_poisoned" else "dead", "attached": False, "machine": "none"}
     return {"attached": state != "none", "machine": {"running": "running", "paused": "paused"}.get(state, "none")}
@@ -81,7 +88,7 @@ class Session:
         else:
             self.dap = DapSession(mos, SRC, workdir=workdir)
             self.lsp = self.dap.lsp
-            if state == "idle":
+            if state in ("idle", "launch_in_flight"):
                 r = self.dap.request("initialize", {"adapterID": "mos", "linesStartAt1": True, "columnsStartAt1": True})
             elif state == "running":
                 r = self.dap.handshake("t")
@@ -116,6 +123,52 @@ class Session:
                 return
             time.sleep(0.02)
         self.setup_error = "the debug-server thread did not panic (the handler may have been repaired: drop this session state)"
+
+    def _pump_lsp(self, cond, seconds):
+        """read LSP messages until cond() holds; False when the deadline passes or the server's stdout ends first"""
+        deadline = time.time() + seconds
+        while not cond():
+            m = self.lsp._read_msg(min(deadline, time.time() + 0.5))
+            if m is not None:
+                self.lsp._dispatch(m)
+            elif self.lsp.eof or time.time() >= deadline:
+                return cond()
+        return True
+
+    def play_in_flight(self, script, rng):
+        """the editor sends a big edit (and, if the script starts with it, `shutdown` back to back); the debugger sends `launch`
+        while the edit is being analysed; the rest of the script follows once the analysis is over (its diagnostics have arrived),
+        so that the time to exit is measured from a quiet server"""
+        trace = []
+        lsp = self.lsp
+        n0 = len(lsp.diag_log)
+        lsp.did_change("main.asm", BIG_SRC)
+        rest = list(script)
+        rid = None
+        if rest and rest[0] == "shutdown":
+            rid = lsp.next_id
+            lsp.next_id += 1
+            lsp._send({"jsonrpc": "2.0", "id": rid, "method": "shutdown", "params": None})
+            rest = rest[1:]
+        time.sleep(rng.choice([0.25, 0.4, 0.5]))
+        self.dap.send_request("launch", {"workspace": lsp.dir, "testRunner": {"testCaseName": "t"}})
+        trace.append(("launch", "sent during the analysis"))
+        if rest and rest[0] == "close":
+            # the pipe is closed while the edit is still being analysed
+            try:
+                lsp.p.stdin.close()
+            except Exception:
+                pass
+            trace.append(("close", "done"))
+            rest = rest[1:]
+        t0 = time.time()
+        analysed = self._pump_lsp(lambda: len(lsp.diag_log) > n0 or lsp.eof, 300.0)
+        trace.append(("analysis", "done after %.1fs" % (time.time() - t0) if analysed else "NOT finished within 300 s"))
+        self.analysed = analysed
+        if rid is not None:
+            got = self._pump_lsp(lambda: rid in lsp.pending or lsp.eof, NORMAL_BOUND)
+            trace.append(("shutdown", "result" if rid in lsp.pending else ("died" if lsp.eof else "no answer %d s after the analysis" % int(NORMAL_BOUND))))
+        return trace + self.play(rest, rng, 0.0, False)
 
     def play(self, script, rng, jitter, pipelined):
         trace = []
@@ -228,7 +281,9 @@ def run_scenario(chk, mos, model, state, script, rng, workdir, jitter, dist, tag
         dist["skipped_after_5_violations"] = dist.get("skipped_after_5_violations", 0) + 1
         return                                   # the verdict is decided; do not spend the budget on more of the same
     bound = SLOW_BOUND if script in SLOW_ORDERS else NORMAL_BOUND
-    if dist.get("hang", 0) >= 2:
+    if state == "launch_in_flight":
+        bound = IN_FLIGHT_BOUND if not dist.get("hang_in_flight") else 20.0   # one hang of this state established with the full bound
+    elif dist.get("hang", 0) >= 2:
         bound = min(bound, 5.0)                  # two hangs were established with the full bound already
     m = model.call(dict(cmd="outcomes", script=script, **model_state(state)))
     if "outcomes" not in m:
@@ -252,7 +307,7 @@ def run_scenario(chk, mos, model, state, script, rng, workdir, jitter, dist, tag
                     continue
                 chk.tie_break("setup", "could not reach session state %s: %s" % (state, sess.setup_error), {"state": state})
                 return
-            trace = sess.play(script, rng, jitter, False)
+            trace = sess.play_in_flight(script, rng) if state == "launch_in_flight" else sess.play(script, rng, jitter, False)
             obs = sess.observe(bound)
             port_taken = state != "dead_port" and "Couldn't listen on port" in sess.lsp.stderr_tail(4000)
         except Exception as e:
@@ -270,6 +325,11 @@ def run_scenario(chk, mos, model, state, script, rng, workdir, jitter, dist, tag
         break
     want = "exit%d" % int(m["expect"])
     dist[obs["class"]] = dist.get(obs["class"], 0) + 1
+    if state == "launch_in_flight" and obs["class"] == "hang":
+        dist["hang_in_flight"] = dist.get("hang_in_flight", 0) + 1
+    if state == "launch_in_flight" and not getattr(sess, "analysed", True):
+        chk.tie_break("setup", "the big edit was not analysed within 300 s: the in-flight scenario did not take place", {"state": state, "script": script})
+        return
     dist["max_elapsed"] = max(dist.get("max_elapsed", 0.0), obs["elapsed"])
     rec = {"state": state, "script": script, "trace": trace, "observed": obs, "demanded": want, "model_outcomes": m["outcomes"], "tag": tag}
     chk.count(1, 1 if state != "none" or len(script) > 1 else 0)
@@ -345,7 +405,8 @@ def run(chk):
         "reference / sender, who blocks where, who wakes whom) and is explored over all interleavings, the check samples the real binary",
         "the machine thread and the poller of a test run are never waited for on the shutdown path (model: machine state enables no step); "
         "`bind` of the debug port is assumed to succeed; no new debugger connects while the editor shuts down",
-        "a hang is reported only when the process is still alive %d s after the last script action (normal: < 0.1 s)" % int(NORMAL_BOUND),
+        "a hang is reported only when the process is still alive %d s after the last script action (normal: < 0.1 s); with a launch in flight "
+        "(normal: ~2 s, the launch is completed first) the bound is %d s, counted from a server that has finished analysing the edit" % (int(NORMAL_BOUND), int(IN_FLIGHT_BOUND)),
     ]
     return chk.finish(extra_trusted=[
         "translate/t_life.py (the five code shapes that select the model variant; census of holders of the LSP connection / context)",
@@ -363,7 +424,7 @@ def replay(chk, path):
     rng = random.Random(obj.get("seed", 0))
     sess = Session(mos, rp["state"], workdir)
     try:
-        trace = sess.play(rp["script"], rng, 0.0, False)
+        trace = sess.play_in_flight(rp["script"], rng) if rp["state"] == "launch_in_flight" else sess.play(rp["script"], rng, 0.0, False)
         obs = sess.observe(SLOW_BOUND if rp["script"] in SLOW_ORDERS else NORMAL_BOUND)
     finally:
         sess.close()
